@@ -937,7 +937,13 @@ fn witness_inner(ctx: &mut Ctx, r: &mut Rng, i: u64) -> Option<()> {
             // make_daedalus_bootstrap_witness: root keys made from seeds by the Daedalus procedure
             let slen = if r.bool() { 32 } else { 1 + r.usize(64) };
             let seed = r.bytes(slen);
-            let kb = o_daedalus_root(&seed);
+            let mut kb = o_daedalus_root(&seed);
+            // keys derived with the legacy (V1) scheme are not constrained in their third-highest scalar
+            // bit - the reason this key type exists: half of the cases carry it set
+            if r.bool() {
+                kb[31] |= 0x20;
+                ctx.bucket("witness.daedalus.third-highest-bit-set");
+            }
             ctx.eval();
             let want_vk = ced::extended_to_public(&a64(&kb[0..64])?).to_vec();
             let want_cc = kb[64..96].to_vec();
